@@ -348,18 +348,6 @@ fn canon_tables(tables: &[String]) -> Vec<String> {
         .collect()
 }
 
-/// Offsets are not compared (diagnostics move the offset of the standard error file).
-fn strip_offsets(table: &str) -> String {
-    table
-        .split_whitespace()
-        .map(|tok| match (tok.find('@'), tok.rfind('i')) {
-            (Some(a), Some(b)) if a < b => format!("{}@0{}", &tok[..a], &tok[b..]),
-            _ => tok.to_string(),
-        })
-        .collect::<Vec<_>>()
-        .join(" ")
-}
-
 fn low(table: &str) -> String {
     table
         .split_whitespace()
